@@ -5,7 +5,7 @@
 Not decided: termination."""
 import os
 from ..report import Run, Finding, rel
-from ..common import lib_module, configs_for, need_fn
+from ..common import lib_module, configs_for, need_fn, with_helpers_inlined, local_helpers_of
 from ..build import AnalysisBroken, build_module, VERIF
 from ..ir import Module
 from ..core import World
@@ -118,6 +118,28 @@ def analyse(mod, run, label, table=TABLE):
         run.check(used, "L1-length-consulted", {"fn": name, "length_param": lenn},
                   Finding("L1-length-unused", name, lenn, "param", "the declared input length '%s' never influences a branch: the decoder cannot stop at the end of its input" % lenn,
                           loc="%s:%s" % (rel(fn.file), fn.line)))
+        # L2, first silently: when something is not proved and the function keeps its cursor in file-local helpers (a reader passed by
+        # reference), the same obligations are tried on the function with those helpers inlined.  That second reading is only ever used to
+        # discharge - what gets reported is always the plain reading.
+        probe = Run("C14-probe", "quick")
+        l2(mod, w, B, probe, name, fn, inp, lenp, inn, lenn, num, den)
+        if probe.findings and label in ("ndebug", "asserts", "native"):
+            m2, f2 = with_helpers_inlined(mod, fn, label)
+            if m2 is not None:
+                w2 = World(m2); B2 = Bounds(w2); B2.rcontracts = dict(B.rcontracts)
+                p2 = Run("C14-probe", "quick")
+                try: n2 = l2(m2, w2, B2, p2, name, f2, inp, lenp, inn, lenn, num, den)
+                except AnalysisBroken: n2 = 0
+                if n2 and not p2.findings:
+                    for _ in range(n2): run.ok("L2-read-within-length", {"fn": name, "via": "proved with the file-local helpers %s inlined" % ", ".join(local_helpers_of(mod, fn))})
+                    summ[name] = n2
+                    continue
+        summ[name] = l2(mod, w, B, run, name, fn, inp, lenp, inn, lenn, num, den)
+    return n_inst, summ
+
+
+def l2(mod, w, B, run, name, fn, inp, lenp, inn, lenn, num, den):
+    if True:
         # L2: extent in bytes = len * num / den ; scale the obligation by den
         ext = Lin.atom(("arg", lenp))
         fi, F, P = B.fp(fn)
@@ -147,8 +169,7 @@ def analyse(mod, run, label, table=TABLE):
                         run.ok("L2-read-within-length", {"fn": name, "at": loc(i), "access": kind, "via": "context proof"}); continue
                 run.fail(Finding("L2-read-beyond-length", name, inn, kind, "%s at %s through '%s': cannot prove %r <= 0, i.e. that the read ends at or before '%s'" % (kind, loc(i), inn, goal, lenn), loc=loc(i)))
         if n == 0: raise AnalysisBroken("%s: no read through the input parameter found" % name)
-        summ[name] = n
-    return n_inst, summ
+        return n
 
 
 def controls(run):
